@@ -83,7 +83,7 @@ theorem sim_writeHere {w : Walker Node} {a : TW Node} (h : Sim H ps w a) (n : No
     rw [if_pos hroot]
     refine ⟨_, rfl, ?_, Same.rfl' _, rfl⟩
     have hstk : w.stack = [] := h.stackE.mpr (by rw [hn]; simp)
-    refine ⟨h.wf, h.pos, by simp [TW.setNode, hn, upd_same], h.stackE, h.stackT, h.chain, ?_, h.counters, h.recon.cast H rfl rfl rfl rfl rfl, h.cpr, h.outs, h.nofix, h.diffs, h.acct⟩
+    refine ⟨h.wf, h.pos, by simp [TW.setNode, hn, upd_same], h.stackE, h.stackT, h.chain, ?_, h.counters, h.recon.cast H rfl rfl rfl rfl rfl, h.cpr, h.outs, h.nofix, h.diffs, h.acct, h.named.write_root hn _⟩
     intro sp hsp; rw [hstk] at hsp; cases hsp
   · have hne := sim_pos_ne (w := w) hd
     have hroot : ¬ w.position.isRoot = true := by
